@@ -30,7 +30,7 @@ open Interceptor.Facts.FnReceiverReport (S Rel TimeOk instant)
 /-- the `Delay` closure. -/
 def delayOf (st : S) (now : Int) : Int :=
   if decide (st.lastSenderReportTime = zeroTime) then 0
-  else u32 (F64.toInt64 (F64.mul (durSeconds (timeSub now st.lastSenderReportTime)) (65536 : Rat)))
+  else u32 (F64.toInt64 (F64.mul (durSeconds (max (timeSub now st.lastSenderReportTime) (0 : Int))) (65536 : Rat)))
 
 /-- the composite literal and the final `lastReportSeqnum = lastSeqnum`, for a given `Delay`. -/
 def mkRepWith (st : S) (lost total delay : Int) : S_rtcp_ReceiverReport × S :=
@@ -85,7 +85,7 @@ theorem mkRep_cases (st : S) (now lost total : Int) :
     mkRep st now lost total =
       (if decide (st.lastSenderReportTime = zeroTime) then mkRepWith st lost total 0
        else mkRepWith st lost total
-         (u32 (F64.toInt64 (F64.mul (durSeconds (timeSub now st.lastSenderReportTime)) (65536 : Rat))))) := by
+         (u32 (F64.toInt64 (F64.mul (durSeconds (max (timeSub now st.lastSenderReportTime) (0 : Int))) (65536 : Rat))))) := by
   unfold mkRep delayOf
   split <;> rfl
 
@@ -224,7 +224,7 @@ theorem fraction_eq (lost total : Nat) (h0 : total = 0 → lost = 0) :
 def mDelay (m : Stream) (now : Int) : Nat :=
   match m.lsrTime with
   | none => 0
-  | some t => F64.toUint32 (F64.mul (GoTime.seconds (now - t)) 65536)
+  | some t => F64.toUint32 (F64.mul (GoTime.seconds (max (now - t) 0)) 65536)
 
 /-- the `Delay` closure: the `IsZero` test is the model's `none`, and `now.Sub` does not saturate. -/
 theorem delay_eq (st : S) (m : Stream) (ht : timeRel st.lastSenderReportTime m.lsrTime) (lok : LsrOk m)
